@@ -28,6 +28,8 @@ pub struct GenCfg {
     /// expressions may mention state variables of *other* contracts of the file (inherited members are
     /// written like that); off wherever C19's precondition (items do not share names) must hold
     pub cross_contract_names: bool,
+    /// contracts may name an earlier contract of the same file as their base (`contract C2 is C1`)
+    pub inherit_earlier: bool,
 }
 
 impl Default for GenCfg {
@@ -43,6 +45,7 @@ impl Default for GenCfg {
             newline_items: true,
             focus: 0,
             cross_contract_names: false,
+            inherit_earlier: false,
         }
     }
 }
@@ -522,14 +525,14 @@ impl<'t, 'd> Gen<'t, 'd> {
         let kind = *self.t.pick(&["contract", "contract", "contract", "library", "interface", "abstract contract"]);
         self.w(kind);
         self.w(&format!("C{}", self.n_contract));
-        if self.t.chance(50) {
+        if self.t.chance(if self.cfg.inherit_earlier { 110 } else { 50 }) {
             self.w("is");
             let n = self.t.range(1, 2);
             for k in 0..n {
                 if k > 0 {
                     self.w(",");
                 }
-                if self.cfg.cross_contract_names && self.n_contract > 1 && self.t.chance(128) {
+                if (self.cfg.cross_contract_names || self.cfg.inherit_earlier) && self.n_contract > 1 && self.t.chance(128) {
                     let b = format!("C{}", 1 + self.t.below(self.n_contract - 1));
                     self.w(&b);
                 } else {
